@@ -118,7 +118,9 @@ fn git_word(r: &mut Rng) -> String {
             }
             if s.chars().any(|c| c.is_whitespace() || c == '\u{212a}') { "é".to_string() } else { s }
         }
-        14 => (*r.pick(&["#é1", "#aé123", "#€", "#é€é", "#ééé", "#😀ab"])).to_string(),
+        14 => (*r.pick(&["#é1", "#aé123", "#€", "#é€é", "#ééé", "#😀ab",
+            // characters that BECOME hexadecimal digits or letters under bit tricks (| 0x20, & 0x5f, - b'0' without a range check)
+            "#\u{10}23", "#1\u{19}3", "#12\u{11}456", "#\u{10}\u{10}\u{10}", "#@bc", "#`bc", "#12345:", "#/12", "#G12", "#g12", "#1\u{7f}2", "#\u{1}23"])).to_string(),
         _ => (*r.pick(&["brightred", "grey", "default", "none", "underline", "inverse", "no", "no-", "nono-bold", "bold,", "red;"])).to_string(),
     }
 }
